@@ -193,12 +193,12 @@ func runShapeNonString(nv nsValue) *vlib.Outcome {
 
 // shapeBlocks: the inputs of the shape dimension. Quick: specials, the 256 single bytes, every pair
 // and triple of already-escaped forms, every alphabet string of length <= 4, boundary lengths up to
-// 4097 repeats, every code point below U+3000 inside a?&. Thorough: every byte string of length <= 2,
+// 4097 repeats, every code point below U+0800 (1- and 2-byte forms) inside a?&. Thorough: every byte string of length <= 2,
 // alphabet strings of length <= 5, all boundary lengths, the 1 MiB strings, every code point inside a?&.
 func shapeBlocks(thorough bool) []block {
 	never := func(int) bool { return false }
 	if thorough {
 		return buildBlocks(blockCfg{L: 5, bytesLen: 2, maxRep: 1 << 20, long: true, cpEnd: 0x110000, cpAlone: never, cpCore: never})
 	}
-	return buildBlocks(blockCfg{L: 4, bytesLen: 1, maxRep: 4097, long: false, cpEnd: 0x3000, cpAlone: never, cpCore: never})
+	return buildBlocks(blockCfg{L: 4, bytesLen: 1, maxRep: 4097, long: false, cpEnd: 0x800, cpAlone: never, cpCore: never})
 }
